@@ -151,3 +151,27 @@ theorem C08_is_derivative (p : Params (C+1) D ℝ) (model : Fin (C+1) → Fin D 
   refine hsum.congr_deriv ?_
   rw [(C08_formula p.means p.variances model _ (fun _ _ => 0) eps).1, score_regroup]
   simp only [eStep, lsum_eq, resp, Transc.exp]
+
+/-- **a Gaussian the test statistics never visited does not enter the score**: if `N_c = 0` and `F_c = 0`
+for a component, the score does not depend on the model mean or on the channel offset of that
+component — its term is exactly `0`, with or without frame normalisation (no `0/0`: nothing is divided
+by a count) -/
+theorem C08_unvisited_component_irrelevant (um uv model model' : Fin C → Fin D → ℝ) (st : LStat C D ℝ)
+    (off off' : Fin C → Fin D → ℝ) (norm : Bool) (eps : ℝ) (c0 : Fin C)
+    (hn : st.n c0 = 0) (hf : ∀ d, st.sumPx c0 d = 0)
+    (hm : ∀ c, c ≠ c0 → model' c = model c) (ho : ∀ c, c ≠ c0 → off' c = off c) :
+    linearScore um uv model' st off' norm eps = linearScore um uv model st off norm eps := by
+  simp only [linearScore, sumFin_eq]
+  refine Finset.sum_congr rfl fun c _ => ?_
+  by_cases hc : c = c0
+  · subst hc
+    refine Finset.sum_congr rfl fun d _ => ?_
+    simp [hn, hf d]
+  · rw [hm c hc, ho c hc]
+
+/-- a scalar channel offset is the array filled with that number (the default `0` included): the three
+ways of giving offsets denote functions, and equal functions give equal scores -/
+theorem C08_scalar_offset_is_constant_array (models : ModelsArg C D ℝ) (ubm : UbmArg C D ℝ) (tests : StatsArg C D ℝ)
+    (x : ℝ) (norm : Bool) (eps : ℝ) :
+    linearScoring models ubm tests (.scalar x) norm eps = linearScoring models ubm tests (.shared fun _ _ => x) norm eps := by
+  simp [linearScoring, OffArg.get]
